@@ -11,6 +11,7 @@ CONSTANTS
   SSizes = {1, 2}
   Filts = {"none"}
   Ops = {"pub", "rem"}
+  MaxJumps = 0
   Pres = {3}
   N0s = {0}
   Contig = TRUE
